@@ -671,11 +671,12 @@ func (f *fnTrans) ret(ins *ssa.Return) {
 			nm = "post:" + cl.Name
 		}
 		o.Name = fmt.Sprintf("%s/%s@ret%d", f.name, nm, ord)
-		f.factHere(t)
+		f.factOb(f.here(), t)
 	}
 	if f.c.HasMod {
 		f.frameObligations(ins, ord)
 	}
+	f.protectCheck("post", fmt.Sprintf("ret%d", ord), f.curB, f.cur, f.here(), ins.Pos(), nil)
 	f.subtypeObligations(ins, ord, names)
 }
 
